@@ -212,7 +212,7 @@ def c02_pkg(rec, case):
     ok = True
     with pkg.scratch() as d:
         if c['version'] == 1:
-            _build_conv_package(d, spec, names, spec.wav[widx], widx, units_=tuple(c.get('cf_units') or ('mJy', 'au', 'micron')))
+            _build_conv_package(d, spec, names, spec.wav[widx], widx, units_=tuple(c.get('cf_units') or ('mJy', 'au', 'micron')), ap_counts=c.get('ap_counts'))
             fn = names
         else:
             pkg.write_v2(d, spec)
@@ -245,7 +245,8 @@ def c02_pkg(rec, case):
         for j in range(n_f):
             table = spec.flux[order][:, :, widx[j]]          # (n_models, n_ap)
             r_au = theta[j] * grid * 1000.
-            e = _interp_oracle(spec.apertures, table, r_au) / grid[None, :] ** 2
+            ka = None if (c.get('ap_counts') is None or c['version'] != 1) else int(c['ap_counts'][j])
+            e = _interp_oracle(spec.apertures[:ka], table[:, :ka], r_au) / grid[None, :] ** 2
             ok &= rec.expect(close(got[:, :, j], e, tol, 0), 'scaled_interpolated_flux',
                              'filter %d: model flux at the trial distances is not the tabulated flux interpolated to theta*d (clamped above) times (1 kpc/d)^2' % j, case)
         ok &= rec.expect([str(x).strip() for x in m.names] == spec.par_names(), 'names_order', 'model names of the package changed order', case)
@@ -292,7 +293,29 @@ def run_c02(tier, seed):
         except Exception as e:
             rec.fail('c02_crash', 'raised %s: %s' % (type(e).__name__, e), case)
         rec.case(key=('pkg', case['version'], n_ap, kind, case['memmap'], case['range_unit']), nontrivial=kind != 0, sample=case if t < 2 else None)
+    for case in shared_aperture_cases(rng, seed, 4 if tier == 'quick' else 60):
+        try:
+            c02_pkg(rec, case)
+        except Exception as e:
+            rec.fail('c02_crash', 'raised %s: %s' % (type(e).__name__, e), case)
+        rec.case(key=('pkg-shared-aperture', case['n_f'], tuple(case['ap_counts'])), nontrivial=True)
     return rec, replay
+
+
+def shared_aperture_cases(rng, seed, count):
+    """Per-file packages in which several bands are measured in the SAME angular aperture while their files tabulate
+    DIFFERENT sets of apertures (the first band the shortest table), and the distance range pushes theta*d beyond the
+    shortest table: every band must still be interpolated in its own table."""
+    out = []
+    for t in range(count):
+        n_ap = int(rng.integers(4, 9))
+        n_f = 2 + t % 2
+        dmin = float(10. ** rng.uniform(-0.5, 0.2))
+        theta = float(10. ** rng.uniform(1.8, 2.3) / (dmin * 1000.)) * 10.
+        out.append(dict(seed=seed, tag='c02-pkg', pseed=int(rng.integers(1, 10 ** 6)), n_models=int(rng.integers(2, 6)), n_ap=n_ap, n_f=n_f, step=0.1, dmin=dmin,
+                        dmax=float(dmin * 10. ** rng.uniform(0.8, 1.2)), theta=[theta] * n_f, version=1, memmap=False, increasing=True, lo=0., hi=float(rng.uniform(2, 10)),
+                        flags=[1] * n_f, exact=False, range_unit='kpc', cf_units=None, ap_counts=[int(rng.integers(2, n_ap - 1))] + [n_ap] * (n_f - 1)))
+    return out
 
 
 # ---------------------------------------------------------------------------
@@ -991,7 +1014,15 @@ def c17_one(rec, case):
         ext = e2
     ok = True
     with pkg.scratch() as d:
-        pkg.write_v2(d, spec)
+        if c.get('ap_desc') and spec.apertures is not None and len(spec.apertures) > 1:
+            # the same cube with its apertures (and the planes that go with them) stored from the largest to the smallest
+            import copy as _copy
+            sw = _copy.copy(spec)
+            sw.apertures = spec.apertures[::-1].copy()
+            sw.flux, sw.error = spec.flux[:, ::-1, :].copy(), spec.error[:, ::-1, :].copy()
+            pkg.write_v2(d, sw)
+        else:
+            pkg.write_v2(d, spec)
         with pkg.quiet():
             ft = Fitter([spec.wav[i] * u.micron for i in widx], theta * u.arcsec, d, extinction_law=ext, av_range=(0., 6.), distance_range=[0.3, 3.] * u.kpc, use_memmap=False)
         obs = spec.flux[c['m'] % c['n_models'], -1, widx] * 10. ** (1.5 * np.asarray(ft.av_law))
@@ -1062,7 +1093,7 @@ def run_c17(tier, seed):
         theta = sorted(rng.uniform(1., 6., n_f).tolist(), reverse=bool(t % 3 == 0))
         case = dict(seed=seed, tag='c17', pseed=int(rng.integers(1, 10 ** 6)), n_ap=n_ap, n_f=n_f, n_models=int(rng.integers(2, 7)), n_wav=int(rng.integers(8, 20)),
                     theta=theta, m=int(rng.integers(0, 6)), nsel=1 + t % 5, as_file=bool((t // 2) % 2), modes=['interp', 'largest', 'largest+smallest', 'all'],
-                    filter_order_desc=bool(t % 2 == 0), ext_unit='AA' if t % 4 == 3 else 'micron', names_unsorted=bool(t % 3 == 1))
+                    filter_order_desc=bool(t % 2 == 0), ext_unit='AA' if t % 4 == 3 else 'micron', names_unsorted=bool(t % 3 == 1), ap_desc=bool(t % 4 == 2))
         try:
             c17_one(rec, case)
         except Exception as e:
